@@ -32,13 +32,21 @@ fn fail<T>(e: impl Into<String>, o: impl Into<String>) -> Result<T, (String, Str
 
 #[derive(Clone)]
 struct Term {
-    tv: u8,      // truth table over n <= 3 variables
+    tv: u16,     // truth table over n <= 4 variables
     gate: i64,   // cost of its gates (paid once if used in any output)
     name: String,
 }
 
-fn cube_tv(n: usize, c: &CubeM) -> u8 {
-    let mut t = 0u8;
+fn full_mask(n: usize) -> u16 {
+    if nbits(n) == 16 {
+        0xffff
+    } else {
+        (1u16 << nbits(n)) - 1
+    }
+}
+
+fn cube_tv(n: usize, c: &CubeM) -> u16 {
+    let mut t = 0u16;
     for m in 0..nbits(n) {
         if c.value(m as u64) {
             t |= 1 << m;
@@ -69,7 +77,7 @@ fn all_ecube_terms(n: usize, xor_cost: i64) -> Vec<Term> {
             let lits = e.vars.len() as i64;
             if lits >= 2 {
                 // terms with fewer than two variables denote constants or literals: cubes of cost 0 already
-                let mut t = 0u8;
+                let mut t = 0u16;
                 for m in 0..nbits(n) {
                     if e.value(m as u64) {
                         t |= 1 << m;
@@ -82,61 +90,110 @@ fn all_ecube_terms(n: usize, xor_cost: i64) -> Vec<Term> {
     v
 }
 
-/// Exhaustive optimum. `xor_sem`: outputs are XORs of terms (ESOP), else ORs of implicants.
-/// Returns (optimum cost, states explored).
-fn two_level_opt(n: usize, fs: &[u8], terms: &[Term], per_use: i64, xor_sem: bool) -> (i64, u64) {
-    let k = fs.len();
-    let full: u8 = if nbits(n) == 8 { 0xff } else { (1u8 << nbits(n)) - 1 };
-    let pack = |s: &[u8]| -> u32 { s.iter().enumerate().fold(0u32, |a, (j, x)| a | ((*x as u32) << (8 * j))) };
-    let mut dp: HashMap<u32, i64> = HashMap::new();
-    dp.insert(0, 0);
+/// Number of state bits the exhaustive search needs: OR semantics: one bit per (output,
+/// on-set assignment); XOR semantics: 2^n bits per non-zero output.
+fn state_bits(n: usize, fs: &[u16], xor_sem: bool) -> u32 {
+    if xor_sem {
+        fs.iter().filter(|f| **f != 0).count() as u32 * nbits(n) as u32
+    } else {
+        fs.iter().map(|f| f.count_ones()).sum()
+    }
+}
+
+pub const MAX_STATE_BITS: u32 = 21;
+
+/// Exhaustive optimum by dynamic programming over the terms. `xor_sem`: outputs are XORs of
+/// terms (ESOP), else ORs of implicants. The state is the tuple of covered on-set elements
+/// (OR) / accumulated functions (XOR), packed densely. Returns (optimum, transitions explored).
+fn two_level_opt(n: usize, fs: &[u16], terms: &[Term], per_use: i64, xor_sem: bool) -> Option<(i64, u64)> {
+    let bits = state_bits(n, fs, xor_sem);
+    if bits > MAX_STATE_BITS {
+        return None;
+    }
+    let full = full_mask(n);
+    // position of (output j, assignment m) in the packed state
+    let mut pos: Vec<Vec<Option<u32>>> = Vec::new();
+    let mut next_bit = 0u32;
+    for f in fs {
+        let mut row = vec![None; nbits(n)];
+        for m in 0..nbits(n) {
+            let used = if xor_sem { *f != 0 } else { (f >> m) & 1 != 0 };
+            if used {
+                row[m] = Some(next_bit);
+                next_bit += 1;
+            }
+        }
+        pos.push(row);
+    }
+    let pack = |j: usize, tv: u16| -> u32 {
+        let mut s = 0u32;
+        for m in 0..nbits(n) {
+            if (tv >> m) & 1 != 0 {
+                if let Some(b) = pos[j][m] {
+                    s |= 1 << b;
+                }
+            }
+        }
+        s
+    };
+    let size = 1usize << bits;
+    const INF: i64 = i64::MAX / 4;
+    let mut dp = vec![INF; size];
+    dp[0] = 0;
     let mut explored = 0u64;
     for t in terms {
-        // the outputs this term may be used in
         let mut usable: Vec<usize> = Vec::new();
-        for j in 0..k {
-            if fs[j] == 0 {
+        for (j, f) in fs.iter().enumerate() {
+            if *f == 0 {
                 continue; // a constant-zero output uses no term
             }
-            if xor_sem || (t.tv & !fs[j] & full) == 0 {
+            if xor_sem || (t.tv & !f & full) == 0 {
                 usable.push(j);
             }
         }
         if usable.is_empty() {
             continue;
         }
-        let mut next = dp.clone();
-        for (st, cost) in dp.iter() {
-            for sub in 1u32..(1u32 << usable.len()) {
-                let mut s = *st;
-                let mut uses = 0i64;
-                for (b, j) in usable.iter().enumerate() {
-                    if (sub >> b) & 1 != 0 {
-                        uses += 1;
-                        let cur = ((s >> (8 * j)) & 0xff) as u8;
-                        let nw = if xor_sem { cur ^ t.tv } else { cur | t.tv };
-                        s = (s & !(0xffu32 << (8 * j))) | ((nw as u32) << (8 * j));
-                    }
+        let mut moves: Vec<(u32, i64)> = Vec::new();
+        for sub in 1u32..(1u32 << usable.len()) {
+            let mut m = 0u32;
+            let mut uses = 0i64;
+            for (b, j) in usable.iter().enumerate() {
+                if (sub >> b) & 1 != 0 {
+                    uses += 1;
+                    m |= pack(*j, t.tv);
                 }
-                let c = cost + t.gate + per_use * uses;
+            }
+            moves.push((m, t.gate + per_use * uses));
+        }
+        let prev = dp.clone();
+        for (st, cost) in prev.iter().enumerate() {
+            if *cost >= INF {
+                continue;
+            }
+            for (m, c) in &moves {
+                let ns = if xor_sem { st ^ *m as usize } else { st | *m as usize };
                 explored += 1;
-                let e = next.entry(s).or_insert(i64::MAX);
-                if c < *e {
-                    *e = c;
+                if cost + c < dp[ns] {
+                    dp[ns] = cost + c;
                 }
             }
         }
-        dp = next;
     }
-    let target = pack(fs);
+    let mut target = 0u32;
+    for (j, f) in fs.iter().enumerate() {
+        target |= pack(j, *f);
+    }
     let nonzero = fs.iter().filter(|f| **f != 0).count() as i64;
-    match dp.get(&target) {
-        Some(c) => (*c - per_use * nonzero, explored),
-        None => (i64::MAX, explored),
+    let c = dp[target as usize];
+    if c >= INF {
+        None
+    } else {
+        Some((c - per_use * nonzero, explored))
     }
 }
 
-fn lut_of(n: usize, f: u8) -> Lut {
+fn lut_of(n: usize, f: u16) -> Lut {
     Lut::from_blocks(n, &[f as u64])
 }
 
@@ -148,10 +205,52 @@ fn abs_ecube(e: &volute::sop::Ecube) -> EcubeM {
     EcubeM { vars: e.vars().collect(), xnor: e.value(0) }
 }
 
-/// One instance: (optimizer, n, functions, costs). Returns (returned cost, optimum).
-fn check_instance(which: &str, n: usize, fs: &[u8], and_c: i32, xor_c: i32, or_c: i32) -> Result<(i64, i64, u64), (String, String)> {
+fn ecube_tv(n: usize, m: &EcubeM) -> u16 {
+    let mut tv = 0u16;
+    for a in 0..nbits(n) {
+        if m.value(a as u64) {
+            tv |= 1 << a;
+        }
+    }
+    tv
+}
+
+/// The forms returned for one instance, abstracted: per output the cubes and exclusive terms.
+#[derive(Clone, Debug)]
+struct Solution {
+    outs: Vec<(Vec<CubeM>, Vec<EcubeM>)>,
+}
+
+impl Solution {
+    /// cost under the documented model
+    fn cost(&self, and_c: i64, xor_c: i64, sum_c: i64) -> i64 {
+        let mut used_c: std::collections::BTreeSet<&CubeM> = Default::default();
+        let mut used_e: std::collections::BTreeSet<&EcubeM> = Default::default();
+        let mut cost = 0i64;
+        for (cs, es) in &self.outs {
+            cost += std::cmp::max((cs.len() + es.len()) as i64 - 1, 0) * sum_c;
+            used_c.extend(cs.iter());
+            used_e.extend(es.iter());
+        }
+        for c in used_c {
+            cost += std::cmp::max(c.num_lits() as i64, 1).saturating_sub(1) * and_c;
+        }
+        for e in used_e {
+            cost += std::cmp::max(e.vars.len() as i64, 1).saturating_sub(1) * xor_c;
+        }
+        cost
+    }
+    fn show(&self) -> String {
+        self.outs.iter().map(|(cs, es)| format!("[{}{}]", cs.iter().map(|c| format!("+{:?}-{:?}", c.pos, c.neg)).collect::<Vec<_>>().join(" , "), if es.is_empty() { String::new() } else { format!(" || {}", es.iter().map(|e| format!("{}{:?}", if e.xnor { "xnor" } else { "xor" }, e.vars)).collect::<Vec<_>>().join(" , ")) })).collect::<Vec<_>>().join(" ")
+    }
+}
+
+/// Run one optimizer and validate part (a) of the property: one form per function, each
+/// denoting exactly that function, Sop cubes and Soes terms being implicants.
+fn solve(which: &str, n: usize, fs: &[u16], and_c: i32, xor_c: i32, or_c: i32) -> Result<Solution, (String, String)> {
     let luts: Vec<Lut> = fs.iter().map(|f| lut_of(n, *f)).collect();
-    let full: u8 = if nbits(n) == 8 { 0xff } else { (1u8 << nbits(n)) - 1 };
+    let full = full_mask(n);
+    let mut sol = Solution { outs: Vec::new() };
     match which {
         "sop" | "sopes" => {
             let r = guarded(|| if which == "sop" { optimize_sop_mip(&luts, and_c, or_c).into_iter().map(|s| (s, None)).collect::<Vec<_>>() } else { optimize_sopes_mip(&luts, and_c, xor_c, or_c).into_iter().map(|(s, e)| (s, Some(e))).collect::<Vec<_>>() });
@@ -162,12 +261,10 @@ fn check_instance(which: &str, n: usize, fs: &[u8], and_c: i32, xor_c: i32, or_c
             if res.len() != fs.len() {
                 return fail(format!("{} forms", fs.len()), format!("{}", res.len()));
             }
-            let mut used_cubes: std::collections::BTreeSet<CubeM> = Default::default();
-            let mut used_ecubes: std::collections::BTreeSet<EcubeM> = Default::default();
-            let mut cost = 0i64;
             for (j, (sop, soes)) in res.iter().enumerate() {
-                let mut acc = 0u8;
-                let mut terms = 0i64;
+                let mut acc = 0u16;
+                let mut cs = Vec::new();
+                let mut es = Vec::new();
                 for c in sop.cubes() {
                     let m = abs_cube(c);
                     let tv = cube_tv(n, &m);
@@ -175,46 +272,24 @@ fn check_instance(which: &str, n: usize, fs: &[u8], and_c: i32, xor_c: i32, or_c
                         return fail(format!("every cube of output {} is an implicant of {:#x}", j, fs[j]), format!("{} in {}", c, sop));
                     }
                     acc |= tv;
-                    terms += 1;
-                    used_cubes.insert(m);
+                    cs.push(m);
                 }
                 if let Some(soes) = soes {
                     for e in soes.cubes() {
                         let m = abs_ecube(e);
-                        let mut tv = 0u8;
-                        for a in 0..nbits(n) {
-                            if m.value(a as u64) {
-                                tv |= 1 << a;
-                            }
-                        }
+                        let tv = ecube_tv(n, &m);
                         if tv & !fs[j] & full != 0 {
                             return fail(format!("every exclusive term of output {} is an implicant of {:#x}", j, fs[j]), format!("{} in {}", e, soes));
                         }
                         acc |= tv;
-                        terms += 1;
-                        used_ecubes.insert(m);
+                        es.push(m);
                     }
                 }
                 if acc != fs[j] {
                     return fail(format!("output {} denotes exactly {:#x}", j, fs[j]), format!("{:#x}: {} {}", acc, sop, soes.as_ref().map(|s| s.to_string()).unwrap_or_default()));
                 }
-                cost += std::cmp::max(terms - 1, 0) * or_c as i64;
+                sol.outs.push((cs, es));
             }
-            for c in &used_cubes {
-                cost += std::cmp::max(c.num_lits() as i64, 1).saturating_sub(1) * and_c as i64;
-            }
-            for e in &used_ecubes {
-                cost += std::cmp::max(e.vars.len() as i64, 1).saturating_sub(1) * xor_c as i64;
-            }
-            let mut terms = all_cube_terms(n, and_c as i64);
-            if which == "sopes" {
-                terms.extend(all_ecube_terms(n, xor_c as i64));
-            }
-            let (opt, explored) = two_level_opt(n, fs, &terms, or_c as i64, false);
-            if cost != opt {
-                return fail(format!("total cost = the minimum over all such two-level forms = {}", opt), format!("{} for {:?}", cost, res.iter().map(|(s, e)| format!("{}{}", s, e.as_ref().map(|x| format!(" || {}", x)).unwrap_or_default())).collect::<Vec<_>>()));
-            }
-            Ok((cost, opt, explored))
         }
         _ => {
             let r = guarded(|| optimize_esop_mip(&luts, and_c, xor_c));
@@ -225,97 +300,327 @@ fn check_instance(which: &str, n: usize, fs: &[u8], and_c: i32, xor_c: i32, or_c
             if res.len() != fs.len() {
                 return fail(format!("{} forms", fs.len()), format!("{}", res.len()));
             }
-            let mut used: std::collections::BTreeSet<CubeM> = Default::default();
-            let mut cost = 0i64;
             for (j, esop) in res.iter().enumerate() {
-                let mut acc = 0u8;
-                let mut terms = 0i64;
+                let mut acc = 0u16;
+                let mut cs = Vec::new();
                 for c in esop.cubes() {
                     let m = abs_cube(c);
                     acc ^= cube_tv(n, &m);
-                    terms += 1;
-                    used.insert(m);
+                    cs.push(m);
                 }
                 if acc != fs[j] {
                     return fail(format!("output {} denotes exactly {:#x}", j, fs[j]), format!("{:#x}: {}", acc, esop));
                 }
-                cost += std::cmp::max(terms - 1, 0) * xor_c as i64;
+                sol.outs.push((cs, Vec::new()));
             }
-            for c in &used {
-                cost += std::cmp::max(c.num_lits() as i64, 1).saturating_sub(1) * and_c as i64;
-            }
-            let terms = all_cube_terms(n, and_c as i64);
-            let (opt, explored) = two_level_opt(n, fs, &terms, xor_c as i64, true);
-            if cost != opt {
-                return fail(format!("total cost = the minimum over all XOR-of-cubes forms = {}", opt), format!("{} for {:?}", cost, res.iter().map(|e| e.to_string()).collect::<Vec<_>>()));
-            }
-            Ok((cost, opt, explored))
         }
     }
+    Ok(sol)
+}
+
+fn costs_of(which: &str, and_c: i32, xor_c: i32, or_c: i32) -> (i64, i64, i64) {
+    // (and, xor-gate, per-use sum) under the documented model
+    match which {
+        "esop" => (and_c as i64, 0, xor_c as i64),
+        "sop" => (and_c as i64, 0, or_c as i64),
+        _ => (and_c as i64, xor_c as i64, or_c as i64),
+    }
+}
+
+/// An input transformation (permutation, then complementation mask) of an n-variable function.
+fn transform_fn(n: usize, f: u16, perm: &[u8], flips: u32) -> u16 {
+    // g(y) = f(x) with x[perm[i]] = y[i] ^ flips[i]
+    let t = model::group::apply(&TT::from_u64(n, f as u64), perm, flips);
+    t.w[0] as u16
+}
+
+/// Map a cube of the transformed instance back to the original variables.
+fn map_back_cube(c: &CubeM, perm: &[u8], flips: u32) -> CubeM {
+    // literal on y_i (value y_i = x[perm[i]] ^ flips_i): y_i true <=> x[perm[i]] = !flips_i
+    let mut out = CubeM::one();
+    for v in &c.pos {
+        if (flips >> v) & 1 == 0 {
+            out.pos.insert(perm[*v] as usize);
+        } else {
+            out.neg.insert(perm[*v] as usize);
+        }
+    }
+    for v in &c.neg {
+        if (flips >> v) & 1 == 0 {
+            out.neg.insert(perm[*v] as usize);
+        } else {
+            out.pos.insert(perm[*v] as usize);
+        }
+    }
+    out
+}
+
+fn map_back_ecube(e: &EcubeM, perm: &[u8], flips: u32) -> EcubeM {
+    let mut xnor = e.xnor;
+    let mut vars = std::collections::BTreeSet::new();
+    for v in &e.vars {
+        vars.insert(perm[*v] as usize);
+        if (flips >> v) & 1 != 0 {
+            xnor = !xnor;
+        }
+    }
+    EcubeM { vars, xnor }
+}
+
+/// Does `sol` denote `fs` (OR of cubes and terms, or XOR of cubes)?
+fn denotes(n: usize, fs: &[u16], sol: &Solution, xor_sem: bool) -> bool {
+    sol.outs.len() == fs.len()
+        && sol.outs.iter().zip(fs).all(|((cs, es), f)| {
+            let mut acc = 0u16;
+            for c in cs {
+                if xor_sem {
+                    acc ^= cube_tv(n, c);
+                } else {
+                    acc |= cube_tv(n, c);
+                }
+            }
+            for e in es {
+                acc |= ecube_tv(n, e);
+            }
+            acc == *f
+        })
+}
+
+/// One instance: part (a) validity, part (b) minimality against the exhaustive optimum when
+/// the state space allows it, and the metamorphic oracle: the same optimizer on an
+/// equivalent instance (outputs reordered, inputs permuted / complemented) must not find a
+/// cheaper form — if it does, that form mapped back is an explicit cheaper valid form.
+/// Returns (returned cost, Some(optimum) if the exhaustive search ran, transitions of the oracle).
+fn check_instance(which: &str, n: usize, fs: &[u16], and_c: i32, xor_c: i32, or_c: i32, meta: bool) -> Result<(i64, Option<i64>, u64), (String, String)> {
+    let sol = solve(which, n, fs, and_c, xor_c, or_c)?;
+    let (ca, cx, cs) = costs_of(which, and_c, xor_c, or_c);
+    let cost = sol.cost(ca, cx, cs);
+    let xor_sem = which == "esop";
+    let mut terms = all_cube_terms(n, ca);
+    if which == "sopes" {
+        terms.extend(all_ecube_terms(n, cx));
+    }
+    let mut explored = 0u64;
+    let mut optimum = None;
+    if let Some((opt, ex)) = two_level_opt(n, fs, &terms, cs, xor_sem) {
+        explored = ex;
+        optimum = Some(opt);
+        if cost != opt {
+            return fail(format!("total cost = the minimum over all such two-level forms = {} (exhaustive search over all cubes)", opt), format!("{} for {}", cost, sol.show()));
+        }
+    }
+    if meta {
+        let id: Vec<u8> = (0..n as u8).collect();
+        let mut transforms: Vec<(Vec<u8>, u32, bool)> = Vec::new(); // (perm, flips, reverse outputs)
+        if fs.len() > 1 {
+            transforms.push((id.clone(), 0, true));
+        }
+        if n >= 2 {
+            let mut p = id.clone();
+            p.swap(0, n - 1);
+            transforms.push((p, 0, false));
+            let mut r = id.clone();
+            r.rotate_left(1);
+            transforms.push((r, 1, fs.len() > 1));
+        }
+        if n >= 1 {
+            transforms.push((id.clone(), (1u32 << n) - 1, false));
+        }
+        for (perm, flips, rev) in transforms {
+            let mut gs: Vec<u16> = fs.iter().map(|f| transform_fn(n, *f, &perm, flips)).collect();
+            if rev {
+                gs.reverse();
+            }
+            let sol2 = solve(which, n, &gs, and_c, xor_c, or_c).map_err(|(e, o)| (format!("[equivalent instance {:x?}] {}", gs, e), o))?;
+            let cost2 = sol2.cost(ca, cx, cs);
+            if cost2 != cost {
+                // map the cheaper solution to the other instance: an explicit witness
+                let mut back = sol2.clone();
+                if rev {
+                    back.outs.reverse();
+                }
+                for (cs_, es_) in back.outs.iter_mut() {
+                    for c in cs_.iter_mut() {
+                        *c = map_back_cube(c, &perm, flips);
+                    }
+                    for e in es_.iter_mut() {
+                        *e = map_back_ecube(e, &perm, flips);
+                    }
+                }
+                let valid = denotes(n, fs, &back, xor_sem) && back.cost(ca, cx, cs) == cost2;
+                if !valid {
+                    return Err(("harness".into(), format!("mapping a solution back through perm={:?} flips={:#x} rev={} did not give a valid form", perm, flips, rev)));
+                }
+                if cost2 < cost {
+                    return fail(format!("total cost is the minimum: a valid form of cost {} exists ({}), found by the same optimizer on the equivalent instance perm={:?} flips={:#x} reversed={}", cost2, back.show(), perm, flips, rev), format!("{} for {}", cost, sol.show()));
+                } else {
+                    return fail(format!("[equivalent instance {:x?}, perm={:?} flips={:#x} reversed={}] total cost is the minimum: a valid form of cost {} exists (the original instance's result mapped forward)", gs, perm, flips, rev, cost), format!("{} for {}", cost2, sol2.show()));
+                }
+            }
+        }
+    }
+    Ok((cost, optimum, explored))
 }
 
 #[derive(Clone)]
 struct Inst {
     which: &'static str,
     n: usize,
-    fs: Vec<u8>,
+    fs: Vec<u16>,
     costs: (i32, i32, i32),
+    meta: bool,
+    family: &'static str,
 }
 
 fn case_of(i: &Inst) -> String {
-    format!("kind=mip;which={};n={};fs={};and={};xor={};or={}", i.which, i.n, i.fs.iter().map(|f| format!("{:x}", f)).collect::<Vec<_>>().join("."), i.costs.0, i.costs.1, i.costs.2)
+    format!("kind=mip;which={};n={};fs={};and={};xor={};or={};meta={}", i.which, i.n, i.fs.iter().map(|f| format!("{:x}", f)).collect::<Vec<_>>().join("."), i.costs.0, i.costs.1, i.costs.2, i.meta as u8)
+}
+
+fn permute_fn(n: usize, f: u16, perm: &[u8]) -> u16 {
+    transform_fn(n, f, perm, 0)
 }
 
 fn instances(tier: Tier) -> Vec<Inst> {
-    let mut lists: Vec<(usize, Vec<u8>)> = Vec::new();
+    let thorough = tier == Tier::Thorough;
+    // (n, functions, family, meta, heavy)
+    let mut lists: Vec<(usize, Vec<u16>, &'static str, bool, bool)> = Vec::new();
     for n in 0..=2usize {
         let size = 1u32 << nbits(n);
         for a in 0..size {
-            lists.push((n, vec![a as u8]));
+            lists.push((n, vec![a as u16], "all-n<=2", false, false));
             for b in 0..size {
-                lists.push((n, vec![a as u8, b as u8]));
+                lists.push((n, vec![a as u16, b as u16], "all-n<=2", false, false));
             }
         }
     }
     for a in 0..256u32 {
-        lists.push((3, vec![a as u8]));
+        lists.push((3, vec![a as u16], "all-singles-n3", a % 16 == 5, false));
     }
-    if tier == Tier::Thorough {
-        // pairs of NPN-representative functions of 3 variables, 3-output lists for n <= 1
-        let mut reps: Vec<u8> = (0..256u32).map(|x| orbit_min(&TT::from_u64(3, x as u64), Grp::Npn).0.w[0] as u8).collect();
-        reps.sort();
-        reps.dedup();
-        for a in &reps {
-            for b in &reps {
-                lists.push((3, vec![*a, *b]));
+    let mut reps3: Vec<u16> = (0..256u32).map(|x| orbit_min(&TT::from_u64(3, x as u64), Grp::Npn).0.w[0] as u16).collect();
+    reps3.sort();
+    reps3.dedup();
+    // n = 3: pairs and triples of NPN representatives (shared sub-cubes across outputs)
+    for (i, a) in reps3.iter().enumerate() {
+        for (j, b) in reps3.iter().enumerate() {
+            if thorough || (i + j) % 3 == 0 {
+                lists.push((3, vec![*a, *b], "npn-pairs-n3", false, true));
+            }
+            for (k, c) in reps3.iter().enumerate() {
+                if i <= j && j <= k && (thorough || (i + 2 * j + 3 * k) % 9 == 0) {
+                    lists.push((3, vec![*a, *b, *c], "npn-triples-n3", false, true));
+                }
             }
         }
-        for n in 0..=1usize {
-            let size = 1u32 << nbits(n);
-            for a in 0..size {
-                for b in 0..size {
-                    for c in 0..size {
-                        lists.push((n, vec![a as u8, b as u8, c as u8]));
+    }
+    // n = 3: literal-or-cube functions and their rotations (a cube that is prime for no output
+    // can be worth sharing)
+    let rot3: Vec<u8> = vec![1, 2, 0];
+    let mut lc3: Vec<u16> = Vec::new();
+    for l in 0..3usize {
+        for lp in [false, true] {
+            let lit = if lp { CubeM::from_masks(1 << l, 0) } else { CubeM::from_masks(0, 1 << l) };
+            for p in 0..8u32 {
+                for q in 0..8u32 {
+                    if p & q == 0 && (p | q).count_ones() == 2 {
+                        lc3.push(cube_tv(3, &lit) | cube_tv(3, &CubeM::from_masks(p, q)));
                     }
                 }
             }
         }
     }
+    lc3.sort();
+    lc3.dedup();
+    for (k, f) in lc3.iter().enumerate() {
+        if thorough || k % 3 == 0 {
+            let g = permute_fn(3, *f, &rot3);
+            let h = permute_fn(3, g, &rot3);
+            lists.push((3, vec![*f, g, h], "literal-or-cube-rotations-n3", false, true));
+        }
+    }
+    // n <= 1: 3-output lists
+    if thorough {
+        for n in 0..=1usize {
+            let size = 1u32 << nbits(n);
+            for a in 0..size {
+                for b in 0..size {
+                    for c in 0..size {
+                        lists.push((n, vec![a as u16, b as u16, c as u16], "triples-n<=1", false, false));
+                    }
+                }
+            }
+        }
+    }
+    // n = 4, two outputs: (literal | 3-literal cube) and a variable-permuted copy
+    let perms4: Vec<Vec<u8>> = vec![vec![3, 2, 1, 0], vec![1, 2, 3, 0], vec![2, 3, 0, 1]];
+    let mut lc4: Vec<u16> = Vec::new();
+    for l in 0..4usize {
+        for lp in [false, true] {
+            let lit = if lp { CubeM::from_masks(1 << l, 0) } else { CubeM::from_masks(0, 1 << l) };
+            for p in 0..16u32 {
+                for q in 0..16u32 {
+                    if p & q == 0 && (p | q).count_ones() == 3 {
+                        lc4.push(cube_tv(4, &lit) | cube_tv(4, &CubeM::from_masks(p, q)));
+                    }
+                }
+            }
+        }
+    }
+    lc4.sort();
+    lc4.dedup();
+    for (k, f) in lc4.iter().enumerate() {
+        for (pi, p) in perms4.iter().enumerate() {
+            if thorough || (k + pi) % 8 == 0 {
+                lists.push((4, vec![*f, permute_fn(4, *f, p)], "literal-or-cube-pairs-n4", false, true));
+            }
+        }
+    }
+    // n = 4 singles: NPN representatives (ESOP state space 2^16; SOP by on-set size)
+    let mut reps4: Vec<u16> = Vec::new();
+    {
+        let mut seen = vec![false; 1 << 16];
+        for x in 0..(1u32 << 16) {
+            if !seen[x as usize] {
+                let f = TT::from_u64(4, x as u64);
+                for t in model::group::orbit(&f, Grp::Npn) {
+                    seen[t.w[0] as usize] = true;
+                }
+                reps4.push(x as u16);
+            }
+        }
+    }
+    for (k, f) in reps4.iter().enumerate() {
+        if thorough || k % 8 == 3 {
+            lists.push((4, vec![*f], "npn-singles-n4", k % 4 == 3, true));
+        }
+    }
+    // n = 4, two and three dense outputs: beyond the exhaustive search, metamorphic oracle only
+    let dense: Vec<u16> = model::alpha::word_patterns(4, 0, 0).iter().map(|t| t.w[0] as u16).chain([0x6996u16, 0xe8a0, 0x17e8, 0x96c3, 0xcbbe, 0xeab5, 0x2468, 0x0fc9, 0xfab0]).filter(|f| *f != 0 && *f != 0xffff).collect();
+    let nd = dense.len();
+    for i in 0..nd {
+        let count = if thorough { 8 } else { 2 };
+        for d in 1..=count {
+            lists.push((4, vec![dense[i], dense[(i + d) % nd]], "dense-pairs-n4", true, true));
+            lists.push((4, vec![dense[i], dense[(i + d) % nd], dense[(i + 2 * d + 1) % nd]], "dense-triples-n4", true, true));
+        }
+    }
     let quick_triples = vec![(1, 1, 1), (1, 2, 3), (3, 1, 2)];
+    let heavy_triples = vec![(1, 1, 1), (2, 3, 3), (3, 1, 2)];
     let all_triples: Vec<(i32, i32, i32)> = (1..=3).flat_map(|a| (1..=3).flat_map(move |x| (1..=3).map(move |o| (a, x, o)))).collect();
     let mut out = Vec::new();
-    for (n, fs) in lists {
-        let heavy = n == 3 && fs.len() >= 2;
-        let triples = if tier == Tier::Thorough && !heavy { &all_triples } else { &quick_triples };
+    for (n, fs, family, meta, heavy) in lists {
+        let triples = if heavy { &heavy_triples } else if thorough { &all_triples } else { &quick_triples };
         let mut seen_sop = std::collections::BTreeSet::new();
         let mut seen_esop = std::collections::BTreeSet::new();
         for t in triples {
             if seen_sop.insert((t.0, t.2)) {
-                out.push(Inst { which: "sop", n, fs: fs.clone(), costs: (t.0, 1, t.2) });
+                out.push(Inst { which: "sop", n, fs: fs.clone(), costs: (t.0, 1, t.2), meta, family });
             }
-            out.push(Inst { which: "sopes", n, fs: fs.clone(), costs: *t });
-            if seen_esop.insert((t.0, t.1)) {
-                out.push(Inst { which: "esop", n, fs: fs.clone(), costs: (t.0, t.1, 1) });
+            out.push(Inst { which: "sopes", n, fs: fs.clone(), costs: *t, meta, family });
+            // the ESOP model of dense multi-output 4-variable lists takes 15-80 s per solve:
+            // only a handful of pairs, in the thorough tier
+            let esop_too_slow = family.starts_with("dense") && !(thorough && fs.len() == 2 && fs[0] % 7 == 3);
+            if !esop_too_slow && seen_esop.insert((t.0, t.1)) {
+                out.push(Inst { which: "esop", n, fs: fs.clone(), costs: (t.0, t.1, 1), meta, family });
             }
         }
     }
@@ -343,16 +648,22 @@ fn worker(k: usize, nw: usize, tier: Tier, seed: u64, out: &str) -> i32 {
     for which in ["sop", "sopes", "esop"] {
         let sel: Vec<&&Inst> = mine.iter().filter(|i| i.which == which).collect();
         let exhaustive = tier == Tier::Thorough;
-        run.section_seq(&format!("MIP optimize_{}_mip vs exhaustive two-level optimum", which), exhaustive, "all lists of 1..2 functions n<=2, all single functions n=3 (thorough: all cost triples of {1,2,3}^3, pairs of NPN representatives n=3, 3-output lists n<=1)", |l: &mut Local| {
+        run.section_seq(&format!("MIP optimize_{}_mip vs exhaustive two-level optimum (+ metamorphic oracle on equivalent instances)", which), exhaustive, "all lists of 1..2 functions n<=2 and all single functions n=3 (exhaustive optimum); pairs/triples of NPN representatives and literal-or-cube rotations n=3, literal-or-cube pairs and NPN singles n=4 (exhaustive optimum while the state space is <= 2^21), dense 2-/3-output lists n=4 (metamorphic oracle only)", |l: &mut Local| {
             for i in &sel {
                 l.states += 1;
                 l.transitions += 1;
                 l.validated += 1;
-                match check_instance(i.which, i.n, &i.fs, i.costs.0, i.costs.1, i.costs.2) {
-                    Ok((cost, _, explored)) => {
+                let t0 = std::time::Instant::now();
+                let res = check_instance(i.which, i.n, &i.fs, i.costs.0, i.costs.1, i.costs.2, i.meta);
+                if std::env::var("LSX_MIP_TIMING").is_ok() {
+                    *l.outcomes.entry(format!("ms:{}:{}", i.family, i.which)).or_insert(0) += t0.elapsed().as_millis() as u64;
+                    *l.outcomes.entry(format!("count:{}:{}", i.family, i.which)).or_insert(0) += 1;
+                }
+                match res {
+                    Ok((cost, optimum, explored)) => {
                         l.nontrivial += (cost > 0) as u64;
                         l.digest ^= engine::mix3(engine::hash_str(&case_of(i)), cost as u64, 0);
-                        l.outcome(&format!("cost{}", cost.min(9)));
+                        l.outcome(&format!("{}:{}", i.family, if optimum.is_some() { if i.meta { "exhaustive-optimum+metamorphic" } else { "exhaustive-optimum" } } else { "metamorphic-only" }));
                         // the oracle's own explicit-state search
                         l.transitions += explored;
                     }
@@ -474,9 +785,10 @@ fn replay(path: &str) -> i32 {
     let case = Case::parse(&case_s);
     let go = || -> Result<Verdict, String> {
         let n = case.usize("n")?;
-        let fs: Result<Vec<u8>, String> = case.get("fs")?.split('.').map(|s| u8::from_str_radix(s, 16).map_err(|e| e.to_string())).collect();
+        let fs: Result<Vec<u16>, String> = case.get("fs")?.split('.').map(|s| u16::from_str_radix(s, 16).map_err(|e| e.to_string())).collect();
         let g = |k: &str| -> Result<i32, String> { case.get(k)?.parse::<i32>().map_err(|e| e.to_string()) };
-        Ok(check_instance(case.get("which")?, n, &fs?, g("and")?, g("xor")?, g("or")?).map(|_| ()))
+        let meta = case.opt("meta") == Some("1");
+        Ok(check_instance(case.get("which")?, n, &fs?, g("and")?, g("xor")?, g("or")?, meta).map(|_| ()))
     };
     match go() {
         Err(e) => {
